@@ -383,6 +383,68 @@ def contradicts_constants(conds):
     return False
 
 
+def _read_locals(x, out):
+    if isinstance(x, dict):
+        if "l" in x and "pr" in x and isinstance(x["l"], int):
+            out.add(x["l"])
+            _read_locals(x["pr"], out)
+            return
+        for k, v in x.items():
+            if k != "span":
+                _read_locals(v, out)
+    elif isinstance(x, (list, tuple)):
+        for y in x:
+            _read_locals(y, out)
+
+
+def deciding_blocks(body, S, blk, stmt=None, limit=60):
+    """Branch blocks that decide what happens at `blk`: the branches it is control dependent on, and - for every value read there (or
+    tested by one of those branches) that was merged from several assignments (`let q = if c {A} else {B}; .. f(q)`) - the branches
+    that selected the assignment.  `stmt`: index of the statement of interest in blk (None: its terminator)."""
+    from . import cfg as C
+    dec = {a for (a, _s) in C.transitive_controls(body, blk)}
+    deep, shallow = set(), set()
+    b_ = body.blocks[blk]
+    if stmt is None or stmt == -1:
+        _read_locals({k: v for k, v in b_["t"].items() if k in ("args", "discr", "func")}, deep)
+    else:
+        _read_locals(b_["s"][stmt].get("r"), deep)
+    seen_l = set()
+    seen_b = set()
+    while (deep or shallow or dec - seen_b) and len(seen_l) < limit:
+        for d in list(dec - seen_b):
+            seen_b.add(d)
+            t = body.blocks[d]["t"]
+            if t["k"] == "switch":
+                # the value a deciding branch tests: followed through copies only (`match merged_option {..}`), not through arithmetic
+                _read_locals(t["discr"], shallow)
+        if deep:
+            l, is_deep = deep.pop(), True
+        elif shallow:
+            l, is_deep = shallow.pop(), False
+        else:
+            continue
+        if (l, is_deep) in seen_l or (l, True) in seen_l:
+            continue
+        seen_l.add((l, is_deep))
+        defs = S.defs().get(l, [])
+        multi = len([1 for d in defs if d[2]]) >= 2
+        for (bi, bj, full) in defs:
+            if multi:
+                for (a, _s) in C.transitive_controls(body, bi):
+                    dec.add(a)
+            blk_ = body.blocks[bi]
+            if bj >= 0:
+                r = blk_["s"][bj].get("r") or {}
+                if is_deep:
+                    _read_locals(r, deep)
+                elif r.get("k") in ("use", "discr", "ref", "cast"):
+                    _read_locals(r, shallow)
+            elif bj == -1 and is_deep:
+                _read_locals(blk_["t"].get("args"), deep)
+    return dec
+
+
 def path_conds(program, body, S, trail):
     """Canonical branch conditions taken along one block path (see q.canon_cond).  Values are resolved along the path itself
     (PathSlicer), so a local assigned differently on two branches has the value of the branch the path took."""
